@@ -194,6 +194,8 @@ def c18(seed, n):
             note_case('op', op, snap(t))
             try:
                 if op == 0:
+                    if rng.random() < .3:
+                        t.meta = {}       # cleared, then written in place
                     t.meta['touched'] = rng.randrange(10 ** 6)
                 elif op == 1 and t.changes:
                     c = rng.choice(t.changes)
